@@ -13,7 +13,7 @@ Decided statically (necessary conditions; DESIGN.md §3/C08):
          `Not` (bitvec's BitArray::not flips padding bits) reaches a constructor.
 """
 import re
-from vlib import facts as F, ranges as R, numth
+from vlib import facts as F, ranges as R, numth, flow
 from vlib.core import site_of
 
 LEVEL = "other"
@@ -45,6 +45,7 @@ def run(ctx):
     check_consts(ctx, facts)
     check_range(ctx, facts)
     check_padding(ctx, facts)
+    check_pad_constructors(ctx, facts)
     check_accumulator(ctx, facts)
     check_accumulator_window(ctx, facts)
     check_dzkp_consts(ctx, facts)
@@ -199,6 +200,57 @@ def check_padding(ctx, facts):
                "Not keeps padding clean" if ok else f"`!x` flips the {8 * ((bits + 7) // 8) - bits} padding bit(s) of {F.short(t,1)} (BITS={bits}): result is non-canonical (unequal to the canonical value, rejected by its own deserialize)",
                site_of(body, bad) if bad is not None else site_of(body))
     ctx.floor("PAD-not", "padded bit arrays implementing Not", n, 5)
+
+
+def check_pad_constructors(ctx, facts):
+    """Every place that builds a padded bit array (BITS % 8 != 0) from fresh storage - not from existing elements -
+    must leave the padding bits zero: by masking the source with 2^BITS-1, by checking `[BITS..].not_any()`, or by
+    accepting only slices short enough (8*len <= BITS) that the padding byte bits are never written."""
+    ctx.rule("PAD-construct: each aggregate site `T(BitArray::new(x))` of a padded bit-array newtype with x not derived from existing elements is discharged by (mask) x = .. & (2^BITS-1), (check) a dominating not_any() true edge, or (short) a dominating guard len(input) <= K with 8K <= BITS")
+    padded = {}
+    for im in facts.impls:
+        if im.get("trait") == SHARED and not im["generic"]:
+            bits = impl_const(facts, im["self"], SHARED, "BITS")
+            if bits is not None and bits % 8 != 0 and re.search(r"(boolean_array|galois_field)::", im["self"]):
+                padded[im["self"]] = bits
+    n = 0
+    for b in sorted(facts.non_test_bodies(), key=lambda x: x.path):
+        dom = None
+        for bb, idx, st in b.iter_assigns():
+            r = st["r"]
+            if r["k"] != "agg" or (r.get("adt") or "") not in padded or not r.get("ops"):
+                continue
+            bits = padded[r["adt"]]
+            e = flow.expr_of(b, r["ops"][0], max_depth=40)
+            es = str(e)
+            if "BitArray::<A, O>::new" not in es and "from_le_bytes" not in es and "'rep'" not in es:
+                continue            # derived from existing elements / constants (xor, and, identity, ZERO)
+            n += 1
+            dom = dom or b.dominators()
+            ctx.count(bodies=1)
+            mask = ("bin", "BitAnd") and re.search(r"\('bin', 'BitAnd', .*\('const', %d\)" % ((1 << bits) - 1), es) is not None
+            check = short = False
+            for tgt, f in flow.edge_guards(b):
+                if not flow.dominates(dom, tgt, bb):
+                    continue
+                if f[0] == "true" and f[1][0] == "call" and f[1][1].endswith("not_any") and f"('const', {bits})" in str(f[1]):
+                    check = True
+                if f[0] in ("Le", "Lt") and f[1][0] == "call" and f[1][1].endswith("::len") and f[2] is not None:
+                    k = flow.fold(_unwrap_conv(f[2]))
+                    if k[0] == "const" and isinstance(k[1], int):
+                        kk = k[1] if f[0] == "Le" else k[1] - 1
+                        short = 8 * kk <= bits
+            ok = bool(mask or check or short)
+            how = "mask" if mask else ("padding check" if check else ("short-slice guard" if short else None))
+            name = F.short(r["adt"], 1) + "@" + re.sub(r"^<.* as ([\w:]+?)(<.*)?>::(\w+)$", r"\1::\3", b.path).split("::", 1)[-1][-40:]
+            ctx.ob("PAD-construct", name, ok, f"padding stays zero ({how})" if ok else f"{F.short(r['adt'], 1)} (BITS={bits}) is built from raw storage without masking, padding check or a slice-length guard of at most {bits // 8} byte(s): bits above BITS can be set, giving a non-canonical element (x*1 != x, rejected by its own deserialize)", site_of(b, bb, idx))
+    ctx.floor("PAD-construct", "raw constructor sites of padded bit arrays", n, 18)
+
+
+def _unwrap_conv(e):
+    while e[0] == "call" and re.search(r"(TryFrom::try_from|TryInto::try_into|From::from|Into::into|Result::<T, E>::(unwrap|expect))$", e[1]) and e[2]:
+        e = flow.strip_casts(e[2][0])
+    return e
 
 
 # ---------------------------------------------------------------------------------------------
